@@ -33,6 +33,10 @@ try:
     cmd = demo_cmd.replace("/tmp/seed/%s/" % meta.get("property", "XXX"), "")
     if "cd " in cmd and "&&" in cmd:
         cmd = cmd.split("&&", 1)[1].strip()
+    import re
+    m_ = re.search(r"(/venv/bin/python\s+(?:-m\s+pytest\s+)?[^()]*?\.py)", cmd)
+    if m_:
+        cmd = m_.group(1)
     res["demo_cmd"] = cmd
     rc_clean, o_clean = sh(cmd, cwd=wt)
     res["demo_clean_rc"] = rc_clean
@@ -45,9 +49,20 @@ try:
         rc_p, o_p = sh(cmd, cwd=wt)
         res["demo_patched_rc"] = rc_p
         res["demo_patched_tail"] = o_p.strip().splitlines()[-3:]
-        rc_s, o_s = sh("python3 /verif/tools/suite_vs_baseline.py %s" % wt, timeout=7200)
-        res["suite_rc"] = rc_s
-        res["suite_summary"] = o_s.strip().splitlines()[-6:]
+        prev = None
+        if os.environ.get("REUSE_SUITE") and os.path.isfile("/tmp/vseed_%s.log" % name):
+            try:
+                txt = open("/tmp/vseed_%s.log" % name).read()
+                prev = json.loads(txt[txt.index("{"):txt.rindex("}") + 1])
+            except Exception:
+                prev = None
+        if prev and prev.get("suite_rc") == 0 and prev.get("patch_applies"):
+            res["suite_rc"] = 0
+            res["suite_summary"] = prev.get("suite_summary", []) + ["(suite result reused from the first verification run of the same patch)"]
+        else:
+            rc_s, o_s = sh("python3 /verif/tools/suite_vs_baseline.py %s" % wt, timeout=7200)
+            res["suite_rc"] = rc_s
+            res["suite_summary"] = o_s.strip().splitlines()[-6:]
     ok = res.get("patch_applies") and res.get("demo_clean_rc") == 0 and res.get("demo_patched_rc", 0) != 0 and res.get("suite_rc") == 0
     res["confirmed"] = bool(ok)
 finally:
